@@ -137,10 +137,10 @@ PROPS["C18"] = {
 }
 
 _c13_quick = ["c13_bool", "c13_u16", "c13_s32", "c13_f32", "c13_u128", "c13_string_len2_be", "c13_string_len3_le", "c13_raw", "c13_u16_raw", "c13_u8_string_u32",
-              "c13_empty_list", "c13_fixed_point_s32_no_panic", "c13_fixed_point_u64_no_panic"]
+              "c13_empty_list", "c13_u128_u8", "c13_fixed_point_s32_no_panic", "c13_fixed_point_u64_no_panic"]
 _c13_all = ["c13_bool", "c13_u8", "c13_u16", "c13_u32", "c13_u64", "c13_u128", "c13_s8", "c13_s16", "c13_s32", "c13_s64", "c13_s128",
             "c13_f32", "c13_f64", "c13_string_len2_be", "c13_string_len3_le", "c13_string_len0_le", "c13_raw", "c13_u16_raw", "c13_string_u32", "c13_bool_f64",
-            "c13_u8_string_u32", "c13_s16_s16_s16", "c13_empty_list", "c13_fixed_point_s32_no_panic", "c13_fixed_point_u32_no_panic",
+            "c13_u8_string_u32", "c13_s16_s16_s16", "c13_empty_list", "c13_u128_u8", "c13_s64_u16", "c13_fixed_point_s32_no_panic", "c13_fixed_point_u32_no_panic",
             "c13_fixed_point_s64_no_panic", "c13_fixed_point_u64_no_panic"]
 PROPS["C13"] = {
     "level": "model_checking",
@@ -313,7 +313,8 @@ PROPS["C16"] = {
     "outside": 'dialect variants outside the list',
     "assumptions": COMMON_ASSUME + ['std::fmt::format stubbed (messages not compared)', 'core::str::from_utf8 replaced by a byte-wise model checked against std (c19_utf8_model_vs_std)', 'ids, names, units and string contents are literals in whole-message harnesses (whether a byte is NUL is control for the parser); arbitrary contents are decided in C19 / c02d'],
     "trusted_base": [],
-    "harnesses": [H("c16::" + n, "quick", 900) for n in ["c16_bool_tyle_1", "c16_bool_tyle_15", "c16_u32_reserved_bits", "c16_raw_fixp_flag", "c16_id_bytes_after_nul"]],
+    "harnesses": [H("c16::" + n, "quick", 900) for n in ["c16_bool_tyle_1", "c16_bool_tyle_15", "c16_u32_reserved_bits", "c16_raw_fixp_flag", "c16_id_bytes_after_nul"]]
+                 + [H("c16::" + n, "thorough", 1800) for n in ["c16_rt_control_le", "c16_rt_nonverbose_be", "c16_rt_nettrace_be", "c16_rt_verbose_bool_le", "c16_rt_verbose_u16_be"]],
 }
 
 PROPS["C10"] = {
@@ -326,7 +327,7 @@ PROPS["C10"] = {
     "assumptions": COMMON_ASSUME + ['std::fmt::format stubbed (messages not compared)', 'core::str::from_utf8 replaced by a byte-wise model checked against std (c19_utf8_model_vs_std)'],
     "trusted_base": ['rustc_hash / hashbrown'],
     "harnesses": [H("c10::" + n, "quick", 900) for n in ["c10_level_distribution_new_buckets", "c10_level_distribution_merge_is_sum", "c10_merge_00",
-                  "c10_merge_12", "c10_merge_11", "c10_merge_03", "c10_scan_visits_each_message_once"]]
+                  "c10_merge_12", "c10_merge_11", "c10_merge_03", "c10_merge_ecu_only_part", "c10_scan_visits_each_message_once"]]
                  + [H("c10::" + n, "thorough", 3600, mem_gb=30) for n in ["c10_merge_41", "c10_merge_tables_independent", "c10_merge_30"]],
 }
 
